@@ -33,3 +33,35 @@ def as_stored(vals, endian, double):
     """The values a reader must return: the input rounded to the stored precision."""
     r = "d" if double else "f"
     return list(struct.unpack(f"{endian}{len(vals)}{r}", struct.pack(f"{endian}{len(vals)}{r}", *vals)))
+
+
+def decode_file(data):
+    """Independent decoder: bytes -> list of dict(natoms, step, time, box, x, v, f, double, endian)."""
+    out, off = [], 0
+    while off < len(data):
+        if len(data) - off < 84:
+            break  # trailing partial header (writer was stopped)
+        magic_be = struct.unpack_from(">i", data, off)[0]
+        endian = ">" if magic_be == MAGIC else "<"
+        if struct.unpack_from(f"{endian}i", data, off)[0] != MAGIC:
+            raise ValueError("bad magic")
+        off += 4
+        slen = struct.unpack_from(f"{endian}2i", data, off)
+        off += 8
+        off += slen[1]
+        h = struct.unpack_from(f"{endian}13i", data, off)
+        off += 52
+        box_s, x_s, v_s, f_s, natoms, step = h[2], h[7], h[8], h[9], h[10], h[11]
+        rs = (box_s // 9) if box_s else (x_s // (3 * natoms))
+        r = "d" if rs == 8 else "f"
+        time, lam = struct.unpack_from(f"{endian}2{r}", data, off)
+        off += 2 * rs
+        fr = {"natoms": natoms, "step": step, "time": time, "double": rs == 8, "endian": endian}
+        if len(data) - off < box_s + h[3] + h[4] + x_s + v_s + f_s:
+            break  # trailing partial frame
+        for key, size, cnt in (("box", box_s, 9), ("vir", h[3], 9), ("pres", h[4], 9), ("x", x_s, 3 * natoms), ("v", v_s, 3 * natoms), ("f", f_s, 3 * natoms)):
+            if size:
+                fr[key] = list(struct.unpack_from(f"{endian}{cnt}{r}", data, off))
+                off += size
+        out.append(fr)
+    return out
